@@ -1,2 +1,224 @@
+//! C01 – extras of the "unsafe inventory": the safe functions and macros sitting on an unsafe
+//! block that no other sub-command drives (maybe_uninit, manually_drop, ptr, from_utf8,
+//! collect_const!/from_iter!/str_concat!/slice_concat! evaluated at run time inside fns, DSL over
+//! mutable slices, try_into_array on Drop/ZST element types ...).
+//! The C01 check runs this together with c02..c20 under Miri (both aliasing models), natively in
+//! all build variants (boundary monitors, std ub_checks), and the CTFE programs (gen/gen_c01.py).
 use crate::common::*;
-pub fn run(_cfg: &Cfg) -> (&'static str, Report, String, String) { ("C01", Report::new(), String::new(), String::new()) }
+use crate::ledger::{self, take_log, Tok};
+use core::mem::{ManuallyDrop, MaybeUninit};
+use core::ptr::NonNull;
+
+fn maybe_uninit_and_friends(r: &mut Report) {
+    // uninit_array / UNINIT_ARRAY / write / as_mut_ptr / array_assume_init
+    macro_rules! forn {
+        ($($n:literal)*) => {$({
+            let mut a: [MaybeUninit<String>; $n] = konst::maybe_uninit::uninit_array();
+            for (i, slot) in a.iter_mut().enumerate() {
+                let w = konst::maybe_uninit::write(slot, format!("v{}", i));
+                w.push('!');
+            }
+            let arr: [String; $n] = unsafe { konst::maybe_uninit::array_assume_init(a) };
+            r.ev("maybe_uninit::write+array_assume_init");
+            let want: [String; $n] = core::array::from_fn(|i| format!("v{}!", i));
+            r.eq("maybe_uninit", || format!("N={}", $n), &arr, &want);
+            let mut b: [MaybeUninit<u64>; $n] = konst::maybe_uninit::UNINIT_ARRAY::V;
+            for (i, slot) in b.iter_mut().enumerate() {
+                let p = konst::maybe_uninit::as_mut_ptr(slot);
+                unsafe { p.write(i as u64 * 9) };
+            }
+            let arr: [u64; $n] = unsafe { konst::maybe_uninit::array_assume_init(b) };
+            r.ev("maybe_uninit::as_mut_ptr");
+            r.eq("maybe_uninit::as_mut_ptr", || format!("N={}", $n), &arr, &core::array::from_fn(|i| i as u64 * 9));
+            // zero-sized / Drop elements
+            let z: [MaybeUninit<()>; $n] = konst::maybe_uninit::uninit_array();
+            let _z: [(); $n] = unsafe { konst::maybe_uninit::array_assume_init(z) };
+            r.ev("maybe_uninit::zst");
+        })*};
+    }
+    forn!(0 1 2 5);
+    let mut single: MaybeUninit<Box<u32>> = konst::maybe_uninit::UNINIT::V;
+    let w = konst::maybe_uninit::write(&mut single, Box::new(5));
+    **w += 1;
+    let v = unsafe { single.assume_init() };
+    r.ev("maybe_uninit::UNINIT");
+    r.eq("maybe_uninit::UNINIT", || "Box".into(), &*v, &6);
+
+    // manually_drop
+    let mut md = ManuallyDrop::new(String::from("abc"));
+    r.ev("manually_drop::as_inner");
+    r.eq("manually_drop::as_inner", || "String".into(), konst::manually_drop::as_inner(&md), &String::from("abc"));
+    konst::manually_drop::as_inner_mut(&mut md).push('d');
+    r.ev("manually_drop::as_inner_mut");
+    r.eq("manually_drop::as_inner_mut", || "String".into(), &*md, &String::from("abcd"));
+    let s = unsafe { konst::manually_drop::take(&mut md) };
+    drop(s);
+
+    // ptr / nonnull at run time: null, dangling-aligned, in-bounds, one-past-the-end, wrapping out-of-bounds
+    let x = [1u32, 2, 3];
+    let base = x.as_ptr();
+    #[allow(deprecated)]
+    {
+        let cases: [(*const u32, bool); 5] = [
+            (core::ptr::null(), true),
+            (NonNull::<u32>::dangling().as_ptr() as *const u32, false),
+            (base, false),
+            (base.wrapping_add(3), false),
+            (base.wrapping_add(1000), false),
+        ];
+        for (p, want_null) in cases {
+            r.ev("ptr::is_null");
+            r.eq("ptr::is_null", || format!("{:?}", p), &konst::ptr::is_null(p), &want_null);
+            let g = konst::ptr::nonnull::new(p as *mut u32);
+            r.ev("ptr::nonnull::new");
+            r.eq("ptr::nonnull::new", || format!("{:?}", p), &g.map(|n| n.as_ptr() as *const u32), &(if want_null { None } else { Some(p) }));
+        }
+        // unsized pointee
+        let sp: *const [u32] = &x[..];
+        r.ev("ptr::is_null(slice)");
+        r.eq("ptr::is_null", || "slice ptr".into(), &konst::ptr::is_null(sp), &false);
+        let np: *const [u32] = core::ptr::slice_from_raw_parts(core::ptr::null(), 3);
+        r.ev("ptr::is_null(null slice)");
+        r.eq("ptr::is_null", || "null slice ptr".into(), &konst::ptr::is_null(np), &true);
+    }
+    let mut y = 7u64;
+    let n1 = konst::ptr::nonnull::from_ref(&y);
+    r.ev("ptr::nonnull::from_ref");
+    r.eq("nonnull::from_ref", || "u64".into(), &unsafe { *n1.as_ref() }, &7);
+    let mut n2 = konst::ptr::nonnull::from_mut(&mut y);
+    unsafe { *n2.as_mut() += 1 };
+    r.ev("ptr::nonnull::from_mut");
+    r.eq("nonnull::from_mut", || "u64".into(), &y, &8);
+    let sref: &[u8] = &[1, 2, 3];
+    let n3 = konst::ptr::nonnull::from_ref(sref);
+    r.ev("ptr::nonnull::from_ref(slice)");
+    r.eq("nonnull::from_ref", || "slice".into(), &unsafe { n3.as_ref() }, &sref);
+    unsafe {
+        r.ev("ptr::as_ref");
+        r.eq("ptr::as_ref", || "in-bounds".into(), &konst::ptr::as_ref(base), &Some(&1u32));
+        r.eq("ptr::as_ref", || "null".into(), &konst::ptr::as_ref(core::ptr::null::<u32>()), &None);
+        let mut z = 3u8;
+        r.ev("ptr::as_mut");
+        r.eq("ptr::as_mut", || "valid".into(), &konst::ptr::as_mut(&mut z as *mut u8).map(|v| *v), &Some(3u8));
+        r.eq("ptr::as_mut", || "null".into(), &konst::ptr::as_mut(core::ptr::null_mut::<u8>()).map(|v| *v), &None);
+        r.ev("ptr::nonnull::as_ref/as_mut");
+        let mut q = 40u64;
+        let nq = konst::ptr::nonnull::from_mut(&mut q);
+        *konst::ptr::nonnull::as_mut(nq) += 2;
+        r.eq("nonnull::as_mut", || "valid".into(), konst::ptr::nonnull::as_ref(nq), &42u64);
+    }
+}
+
+fn utf8(r: &mut Report, cfg: &Cfg) {
+    // from_utf8 over all byte strings of length <= 3/4 from a set containing every UTF-8 byte class
+    let alpha = [0x00u8, 0x61, 0x7F, 0x80, 0xBF, 0xC0, 0xC2, 0xDF, 0xE0, 0xE1, 0xED, 0xEF, 0xF0, 0xF4, 0xF5, 0xFF, 0x9F, 0xA0, 0x90, 0x8F];
+    let all = bytes_upto(&alpha, cfg.by(2, 3, 4));
+    for (i, b) in all.iter().enumerate() {
+        if !cfg.mine(i) {
+            continue;
+        }
+        let g = konst::string::from_utf8(b).ok();
+        let w = core::str::from_utf8(b).ok();
+        r.ev(if w.is_some() { "from_utf8:Ok" } else { "from_utf8:Err" });
+        if let Some(s) = g {
+            r.boundary_checks += 1;
+            if core::str::from_utf8(s.as_bytes()).is_err() {
+                r.fail("C01:invalid-utf8", "string::from_utf8", format!("{:?}", b), format!("{:?}", s.as_bytes()), "valid UTF-8".into());
+                continue;
+            }
+            mon_sub_slice(r, "string::from_utf8", b, s.as_bytes());
+        }
+        if g != w {
+            r.fail("from_utf8", "from_utf8", format!("{:?}", b), format!("{:?}", g), format!("{:?}", w));
+        }
+        if w.is_some() && b.len() >= 2 && b.iter().any(|x| *x >= 0x80) {
+            r.nt(&b);
+        }
+    }
+}
+
+/// macro forms wrapping unsafe blocks, evaluated at run time inside ordinary fns (Miri sees them)
+fn macro_forms(r: &mut Report) {
+    use konst::iter::collect_const;
+    const A: [u32; 3] = collect_const!(u32 => &[1u32, 2, 3], copied(), map(|x| x * 2));
+    r.ev("collect_const!");
+    r.eq("collect_const!", || "copied,map".into(), &A, &[2, 4, 6]);
+    const B: [&u8; 0] = collect_const!(&u8 => &[] as &[u8]);
+    r.ev("collect_const!:empty");
+    r.eq("collect_const!", || "empty".into(), &B.len(), &0);
+    const C: [(usize, char); 3] = collect_const!((usize, char) => konst::string::char_indices("añ個"));
+    r.ev("collect_const!:char_indices");
+    r.eq("collect_const!", || "char_indices".into(), &C, &[(0, 'a'), (1, 'ñ'), (3, '個')]);
+    const D: &str = konst::string::str_concat!(&["ab", "ñ", "", "個🙂"]);
+    r.ev("str_concat!");
+    r.eq("str_concat!", || "".into(), &D, &"abñ個🙂");
+    const E: &str = konst::string::str_join!("🙂", &["a", "", "ñ"]);
+    r.ev("str_join!");
+    r.eq("str_join!", || "".into(), &E, &"a🙂🙂ñ");
+    const F: &str = konst::string::from_iter!(&["x", "個"], flat_map(|s| konst::string::chars(s)), map(|c| c));
+    r.ev("string::from_iter!");
+    r.eq("string::from_iter!", || "".into(), &F, &"x個");
+    const G: [u16; 5] = konst::slice::slice_concat!(u16, &[&[1, 2], &[], &[3, 4, 5]]);
+    r.ev("slice_concat!");
+    r.eq("slice_concat!", || "".into(), &G, &[1, 2, 3, 4, 5]);
+    for s in [D, E, F] {
+        r.boundary_checks += 1;
+        if core::str::from_utf8(s.as_bytes()).is_err() {
+            r.fail("C01:invalid-utf8", "concat macros", format!("{:?}", s.as_bytes()), "invalid".into(), "valid UTF-8".into());
+        }
+    }
+    // runtime evaluation of the iterator DSL over slices of Drop / zero-sized elements
+    let toks: [Tok; 4] = core::array::from_fn(|i| Tok::new(i as u32));
+    let mut seen = Vec::new();
+    konst::iter::for_each! {t in &toks, rev() => seen.push(t.id);}
+    r.ev("for_each!(&[Tok])");
+    r.eq("for_each!", || "rev over Tok".into(), &seen, &vec![3, 2, 1, 0]);
+    let n = konst::iter::eval!(&[(); 5], skip(1), count());
+    r.ev("eval!(&[()])");
+    r.eq("eval!", || "zst count".into(), &n, &4);
+    drop(toks);
+    let _ = take_log();
+    // try_into_array on Drop / zero-sized elements, shared and mut
+    let mut v: Vec<Tok> = (0..3).map(Tok::new).collect();
+    let a = konst::slice::try_into_array::<Tok, 3>(&v).ok().map(|a| a.len());
+    r.ev("try_into_array(Tok)");
+    r.eq("try_into_array", || "Tok".into(), &a, &Some(3));
+    if let Ok(m) = konst::slice::try_into_array_mut::<Tok, 3>(&mut v) {
+        m.swap(0, 2);
+    }
+    r.ev("try_into_array_mut(Tok)");
+    r.eq("try_into_array_mut", || "Tok swap".into(), &v.iter().map(|t| t.id).collect::<Vec<_>>(), &vec![2, 1, 0]);
+    drop(v);
+    let _ = take_log();
+    let z = [(); 4];
+    r.ev("try_into_array(zst)");
+    r.eq("try_into_array", || "zst".into(), &konst::slice::try_into_array::<(), 4>(&z).is_ok(), &true);
+    r.eq("try_into_array", || "zst wrong len".into(), &konst::slice::try_into_array::<(), 3>(&z).is_ok(), &false);
+    // chars of every encoded length through as_str
+    for c in ['a', 'ñ', '個', '🙂', '\0', '\u{10FFFF}'] {
+        let e = konst::chr::encode_utf8(c);
+        r.ev("chr::encode_utf8.as_str");
+        r.boundary_checks += 1;
+        if core::str::from_utf8(e.as_str().as_bytes()).is_err() || e.as_str().chars().next() != Some(c) {
+            r.fail("C01:invalid-utf8", "chr::encode_utf8", format!("{:?}", c), format!("{:?}", e.as_bytes()), "the char's UTF-8".into());
+        }
+    }
+    r.nt(&"macro-forms");
+    r.nt(&"macro-forms-2");
+}
+
+pub fn run(cfg: &Cfg) -> (&'static str, Report, String, String) {
+    ledger::set_protect(!(cfg.miri() || std::env::var_os("KV_RAW_DROPS").is_some()));
+    let mut rep = Report::new();
+    if cfg.mine(0) {
+        maybe_uninit_and_friends(&mut rep);
+        macro_forms(&mut rep);
+    }
+    utf8(&mut rep, cfg);
+    (
+        "C01",
+        rep,
+        "maybe_uninit (uninit_array/UNINIT/UNINIT_ARRAY/write/as_mut_ptr/array_assume_init for N in {0,1,2,5}, String/u64/()/Box), manually_drop, ptr::is_null/nonnull::new on null/dangling/in-bounds/one-past/out-of-bounds pointers incl. slice pointers, nonnull::from_ref/from_mut/as_ref/as_mut, from_utf8 over all byte strings (<= 3 or 4 bytes) of 20 bytes covering every UTF-8 byte class, const macro forms (collect_const!, str_concat!, str_join!, from_iter!, slice_concat!), DSL over Drop/ZST elements, try_into_array(_mut) on Drop/ZST elements".into(),
+        "one evaluation = one call of a safe function or macro that wraps an unsafe block, compared with its std counterpart; the deciding oracle for C01 is the engine the workload runs under (Miri / rustc const evaluation / std ub_checks) plus the containment + UTF-8 monitors; non-trivial = distinct valid multi-byte from_utf8 inputs and the macro-form groups".into(),
+    )
+}
